@@ -40,6 +40,7 @@ def plan(tier, seed):
     wl = 8 if tier == "quick" else 9
     shards += [{"kind": "manager", "maxlen": wl, "mod": 8, "rem": k, "full": tier != "quick"} for k in range(8)]
     shards.append({"kind": "calibration"})
+    shards.append({"kind": "dst"})
     return shards
 
 
@@ -164,6 +165,33 @@ def run(shard, ctx):
             check_word(word, md, ctx)
             ctx.case(repr((word, md)), any(word))
         ctx.count("strategy_random_words", shard["n"])
+    elif kind == "dst":
+        # two losses one second apart on either side of a daylight-saving switch, in time zones that have one: the breaker
+        # compares two readings of a UTC clock, so the civil-time jump must not matter
+        import datetime as _dt
+        import os
+        import time as _time
+
+        n = 0
+        for tz in ("Europe/Oslo", "America/New_York", "Australia/Sydney", "UTC"):
+            os.environ["TZ"] = tz
+            _time.tzset()
+            # the switch days of 2026 in these zones, every full hour from 00:00 to 04:00 and the UTC instants of the switches: the clock
+            # reading is a naive UTC value, and code that (wrongly) reads it as local time trips over the repeated / skipped hour
+            days = (_dt.date(2026, 10, 25), _dt.date(2026, 3, 29), _dt.date(2026, 11, 1), _dt.date(2026, 3, 8), _dt.date(2026, 4, 5), _dt.date(2026, 10, 4), _dt.date(2027, 1, 1))
+            switches = [_dt.datetime.combine(day, _dt.time(hh)) for day in days for hh in (0, 1, 2, 3, 4)] + [_dt.datetime(2026, 11, 1, 6), _dt.datetime(2026, 3, 8, 7), _dt.datetime(2026, 4, 4, 16), _dt.datetime(2026, 10, 3, 16)]
+            for switch in switches:
+                for lead in (1.5,):
+                    epoch = switch - _dt.timedelta(seconds=lead)
+                    word = ("ok", "ok", "fail", "ok", "ok", "ok")
+                    lifetimes = [1.0, 1.0, None, 1.0, 1.0, None]
+                    res = vloop.run_scenario(list(word), lifetimes, horizon=120.0, config={}, default_outcome="fail", track_tasks=False, epoch=epoch)
+                    case = {"word": list(word), "lifetimes": [1.0], "cfg": {}, "tz": tz, "epoch": epoch.isoformat()}
+                    ctx.count("gaps_judged", judge_manager(res["events"], {}, ctx, case))
+                    ctx.count("dst_scenarios")
+                    ctx.seen("time_zones", tz)
+                    n += 1
+        ctx.enumerated(n, n)
     elif kind == "calibration":
         # two losses 100 virtual seconds apart with threshold 5: with a working clock substitution the second reconnect is immediate
         res = vloop.run_scenario(["ok", "ok", "ok"], [100.0, 100.0, None], horizon=400, config={}, default_outcome="ok")
@@ -217,6 +245,16 @@ def run(shard, ctx):
 
 
 def replay(case, ctx):
+    if "tz" in case:
+        import datetime as _dt
+        import os
+        import time as _time
+
+        os.environ["TZ"] = case["tz"]
+        _time.tzset()
+        res = vloop.run_scenario(case["word"], [1.0, 1.0, None, 1.0, 1.0, None], horizon=120.0, config={}, default_outcome="fail", track_tasks=False, epoch=_dt.datetime.fromisoformat(case["epoch"]))
+        judge_manager(res["events"], {}, ctx, case)
+        return
     if "lifetimes" in case:
         res = run_manager_scenario(tuple(case["word"]), case["lifetimes"], case["cfg"], ctx)
         judge_manager(res["events"], case["cfg"], ctx, case)
@@ -230,7 +268,7 @@ def finalize(agg, tier):
     reasons = []
     if c.get("strategy_words_enumerated", 0) != (2 ** L) * len(MAX_DELAYS):
         reasons.append(f"strategy enumeration incomplete: {c.get('strategy_words_enumerated', 0)} of {(2 ** L) * len(MAX_DELAYS)}")
-    for k in ("gaps_judged", "losses_within_threshold", "losses_outside_threshold", "failures_n5", "calibration_ok", "backoff_probes_while_connected", "manager_scenarios_with_slow_attempts"):
+    for k in ("gaps_judged", "losses_within_threshold", "losses_outside_threshold", "failures_n5", "calibration_ok", "backoff_probes_while_connected", "manager_scenarios_with_slow_attempts", "dst_scenarios"):
         if c.get(k, 0) == 0:
             reasons.append(f"monitor never observed '{k}'")
     return {"exhaustive": not reasons, "exhaustive_scope": f"strategy: all failure/reset words of length {L} x 6 max_delay values; manager: all ok/fail words up to length {8 if tier == 'quick' else 9} (quick: lifetime pattern and configuration assigned round-robin; thorough: x all 6 lifetime patterns x 3 configurations)"}, reasons
